@@ -482,6 +482,101 @@ def url_trial(a_pos, kind):
         env.close()
 
 
+class ForgedRef(object):
+    """serialised by a dishonest (but authenticated) peer as a my-reference sequence of its choosing"""
+
+    def __init__(self, clid, iname, url):
+        self.clid, self.iname, self.url = clid, iname, url
+
+
+def _register_forged():
+    from foolscap import slicer, ipb
+    from twisted.python.components import registerAdapter
+
+    class ForgedRefSlicer(slicer.BaseSlicer):
+        def slice(self, streamable, protocol):
+            self.streamable = streamable
+            yield b'my-reference'
+            yield self.obj.clid
+            if self.obj.iname is not None:
+                yield self.obj.iname.encode("ascii")
+                if self.obj.url is not None:
+                    yield self.obj.url.encode("ascii")
+    registerAdapter(ForgedRefSlicer, ForgedRef, ipb.ISlicer)
+
+
+_register_forged()
+
+
+class Keeper(Referenceable):
+    def __init__(self):
+        self.got = []
+
+    def remote_take(self, obj):
+        self.got.append(obj)        # kept alive: no decref traffic
+        return True
+
+
+def ref_history_trial(a_pos, steps):
+    """Tub B (honest certificate, dishonest behaviour) sends Tub A a HISTORY of my-reference sequences over their proven
+    connection: steps = [(clid, form, url kind)], form 'short' (clid only) / 'long' (interface name, and the URL when kind is not
+    None).  After every step: every reference tracker A holds on any connection either has no URL or its URL names the id that
+    connection is registered under and that its certificate hashes to; the same for what RemoteReference.getSturdyRef() says."""
+    env = Env3(a_pos)
+    A, B, ids = env.A, env.B, env.ids
+    problems, tables = [], []
+    try:
+        keeper = Keeper()
+        furl = A.registerReference(keeper, name="keeper")
+        r0 = []
+        B.getReference(furl).addBoth(r0.append)
+        env.settle(r0)
+        if not r0 or not hasattr(r0[0], "callRemote"):
+            return dict(a_pos=a_pos, steps=steps, tables=[], problems=[("harness-setup", "B could not reach A: %r" % (r0,))], key=ids["B"], model_steps=[])
+        urls = {"B": "pb://%s@fake:b:1/g" % ids["B"], "C": "pb://%s@fake:c:1/g" % ids["C"], "A": "pb://%s@fake:a:1/g" % ids["A"],
+                "upper": "pb://%s@fake:b:1/g" % ids["B"].upper(), "B2": "pb://%s@fake:b:1/other" % ids["B"]}
+        model_steps = []
+        for (clid, form, kind) in steps:
+            url = urls[kind] if (kind is not None and form == "long") else None
+            res = []
+            r0[0].callRemote("take", ForgedRef(clid, "" if form == "long" else None, url)).addBoth(res.append)
+            env.settle(res)
+            model_steps.append((clid, url_tubid(url) if url else None))
+            snap = {}
+            for tubref, b in A.brokers.items():
+                cid = independent_tubid(b.transport.peer_cert) if isinstance(b.transport, E.End) else None
+                for c_, tr in b.yourReferenceByCLID.items():
+                    u = getattr(tr, "url", None)
+                    if tubref.getTubID() == ids["B"]:
+                        snap[c_] = url_tubid(u) if u else None
+                    if u is not None and (url_tubid(u) != tubref.getTubID() or url_tubid(u) != cid):
+                        problems.append(("reference-names-unproven-tub", "after step %r A holds a reference (clid %s) with URL %s over the connection "
+                                         "registered under %s whose certificate hashes to %s" % ((clid, form, kind), c_, u, tubref.getTubID(), cid)))
+                for u, tr in b.yourReferenceByURL.items():
+                    if url_tubid(u) != tubref.getTubID():
+                        problems.append(("reference-names-unproven-tub", "after step %r A's connection registered under %s indexes a reference by URL %s"
+                                         % ((clid, form, kind), tubref.getTubID(), u)))
+            for rr in keeper.got:
+                if hasattr(rr, "getSturdyRef") and rr.tracker.getURL() is not None:
+                    try:
+                        named, proven = rr.getSturdyRef().getTubRef().getTubID(), rr.getRemoteTubID()
+                    except Exception:
+                        continue
+                    if named != proven:
+                        problems.append(("reference-names-unproven-tub", "after step %r a reference delivered over the connection proven for %s says it "
+                                         "lives in Tub %s" % ((clid, form, kind), proven, named)))
+            if not any(tr_.getTubID() == ids["B"] for tr_ in A.brokers):
+                model_steps.pop()       # the reference was refused and the connection dropped: the history ends here
+                break
+            tables.append(sorted((c_, v) for c_, v in snap.items() if c_ in {s_[0] for s_ in steps}))
+            if problems:
+                break
+        problems += [(p[0], repr(p[1:])) for p in env.t.bad]
+        return dict(a_pos=a_pos, steps=[list(s_) for s_ in steps], model_steps=model_steps, tables=tables, problems=problems[:4], key=ids["B"])
+    finally:
+        env.close()
+
+
 def gift_trial(a_pos, target_honest):
     env = Env3(a_pos)
     A, B, C, ids = env.A, env.B, env.C, env.ids
@@ -881,6 +976,202 @@ def raw_trial(role, a_pos, leaf, x, extras, blocks, cuts):
         return dict(role=role, a_pos=a_pos, leaf=leaf, x=x, extras=extras, blocks=blocks, cuts=sorted(cuts), obs=obs,
                     n_chunks=len(chunks), attached=attached, neglog=neglog, problems=problems,
                     claims=dict(Hleaf=leaf_id, Hx=x_id))
+    finally:
+        A.stopService()
+        E.turn()
+
+
+# ------------------------------------------------------------------------------------------ raw BYTES, from the first byte
+def hello_bytes(lines):
+    return ("\r\n".join(lines) + "\r\n\r\n").encode("latin-1")
+
+
+def byte_blocks(ids, leaf, x):
+    """name -> bytes: the block library of the byte-level scripts (everything the raw peer can put on the wire after or instead
+    of the plaintext exchange).  Only ASCII and the bytes 0xFE/0xFF (never valid UTF-8) occur: see lib/IdentityBytesRef.v."""
+    from foolscap import vocab
+    N = neg.Negotiation
+    rng = "banana-negotiation-range: %d %d" % (N.minVersion, N.maxVersion)
+    voc = "initial-vocab-table-range: %d %d" % tuple(N.initialVocabTableRange)
+    idx = N.initialVocabTableRange[1]
+    good_dec = ["banana-decision-version: %d" % N.maxVersion, "current-connection: 0123456789abcdef 1",
+                "initial-vocab-table-index: %d %s" % (idx, vocab.hashVocabTable(idx))]
+    L, X = ids[leaf], ids[x]
+    b = {
+        "Hleaf": hello_bytes([rng, voc, "my-incarnation: 00", "my-tub-id: " + L]),
+        "Hx": hello_bytes([rng, voc, "my-tub-id: " + X]),
+        "Habsent": hello_bytes([rng, voc]),
+        "Hempty": hello_bytes([rng, voc, "my-tub-id: "]),
+        "Hx_then_leaf": hello_bytes([rng, "my-tub-id: " + X, voc, "my-tub-id: " + L]),
+        "Hleaf_then_x": hello_bytes([rng, "my-tub-id: " + L, voc, "my-tub-id: " + X]),
+        "Hupper_key": hello_bytes([rng, voc, "MY-TUB-ID:    " + L]),
+        "Hupper_val": hello_bytes([rng, voc, "my-tub-id: " + L.upper()]),
+        "Hleaf_error": hello_bytes([rng, voc, "my-tub-id: " + L, "error: no"]),
+        "Hleaf_range_low": hello_bytes(["banana-negotiation-range: 1 %d" % N.maxVersion, voc, "my-tub-id: " + L]),
+        "Hleaf_range_none": hello_bytes(["banana-negotiation-range: %d %d" % (N.maxVersion + 1, N.maxVersion + 6), voc, "my-tub-id: " + L]),
+        "Hleaf_range_junk": hello_bytes(["banana-negotiation-range: x y", voc, "my-tub-id: " + L]),
+        "Hleaf_range_one": hello_bytes(["banana-negotiation-range: 3", voc, "my-tub-id: " + L]),
+        "Hleaf_norange": hello_bytes([voc, "my-tub-id: " + L]),
+        "Hleaf_forced": hello_bytes([rng, voc, "my-tub-id: " + L, "negotiation-forced: TRUE"]),
+        "Hleaf_notforced": hello_bytes([rng, voc, "my-tub-id: " + L, "negotiation-forced: no"]),
+        "Hleaf_vocab_bad": hello_bytes([rng, "initial-vocab-table-range: 7 9", "my-tub-id: " + L]),
+        "Hleaf_vocab_default": hello_bytes([rng, "my-tub-id: " + L]),
+        "Hleaf_and_decision": hello_bytes([rng, voc, "my-tub-id: " + L] + good_dec),
+        "Hx_and_decision": hello_bytes([rng, voc, "my-tub-id: " + X] + good_dec),
+        "D": hello_bytes(good_dec),
+        "D2": hello_bytes(["banana-decision-version: 2"]),
+        "D99": hello_bytes(["banana-decision-version: 99"]),
+        "Dnover": hello_bytes(["x: y"]),
+        "Dempty_ver": hello_bytes(["banana-decision-version:"]),
+        "Derror": hello_bytes(good_dec + ["error: no"]),
+        "Dbadhash": hello_bytes(["banana-decision-version: %d" % N.maxVersion, "initial-vocab-table-index: %d %s" % (idx, "0" * 4)]),
+        "Dbadindex": hello_bytes(["banana-decision-version: %d" % N.maxVersion, "initial-vocab-table-index: 9 abcd"]),
+        "Dclaims_x": hello_bytes(good_dec + ["my-tub-id: " + X]),
+        "E": b"error: go away\r\n\r\n",
+        "J": b"this line has no colon\r\n\r\n",
+        "Jff": b"\xff\xfe: 1\r\n\r\n",
+        "Jffval": hello_bytes([rng, voc]).replace(b"\r\n\r\n", b"\r\nmy-tub-id: \xff\r\n\r\n"),
+        "Jblank": b"\r\n\r\n",
+        "Long": b"x: " + b"A" * 4200 + b"\r\n\r\n",
+        "Pad4000": b"x: " + b"A" * 4000 + b"\r\n\r\n",
+        # plaintext blocks a raw CLIENT can send to a listener
+        "GETA": ("GET /id/%s HTTP/1.1\r\nHost: fake\r\nUpgrade: TLS/1.0\r\nConnection: Upgrade\r\n\r\n" % ids["A"]).encode(),
+        "GETA_noupgrade": ("GET /id/%s HTTP/1.1\r\n\r\n" % ids["A"]).encode(),
+        "GETC": ("GET /id/%s HTTP/1.1\r\nUpgrade: TLS/1.0\r\n\r\n" % ids["C"]).encode(),
+        "GETempty": b"GET /id/ HTTP/1.1\r\nUpgrade: TLS/1.0\r\n\r\n",
+        "GET2tok": ("GET /id/%s\r\n\r\n" % ids["A"]).encode(),
+        "GET4tok": ("GET /id/%s HTTP/1.1 extra\r\n\r\n" % ids["A"]).encode(),
+        "GETtabs": ("GET \t/id/%s\x0b HTTP/1.1\r\n\r\n" % ids["A"]).encode(),
+        "GETlower": ("get /id/%s HTTP/1.1\r\n\r\n" % ids["A"]).encode(),
+        "GETindex": b"GET /index.html HTTP/1.1\r\n\r\n",
+        "GETff": b"GET /id/\xff HTTP/1.1\r\n\r\n",
+        "GETAupper": ("GET /id/%s HTTP/1.1\r\n\r\n" % ids["A"].upper()).encode(),
+        "POST": ("POST /id/%s HTTP/1.1\r\n\r\n" % ids["A"]).encode(),
+        # plaintext blocks a raw SERVER can answer a dialling Tub with
+        "R101": b"HTTP/1.1 101 Switching Protocols\r\nUpgrade: TLS/1.0, PB/1.0\r\nConnection: Upgrade\r\n\r\n",
+        "R101_noupgrade": b"HTTP/1.1 101 Switching Protocols\r\nConnection: Upgrade\r\n\r\n",
+        "R101_noupgrade_ff": b"HTTP/1.1 101 Switching\r\nX: \xff\r\n\r\n",
+        "R200": b"HTTP/1.1 200 OK\r\nUpgrade: TLS/1.0\r\n\r\n",
+        "R200ff": b"HTTP/1.1 200 \xff\r\n\r\n",
+        "R1tok": b"HTTP/1.1\r\n\r\n",
+        "Rblank": b"\r\n\r\n",
+        "R500": b"HTTP/1.1 500 Internal Server Error: unknown TubID\r\n\r\n",
+    }
+    for k, v in b.items():
+        assert all(c < 128 or c in (0xfe, 0xff) for c in v), k
+    return b
+
+
+class RawBytesProto(RawProto):
+    """the raw peer of the byte scripts: writes exactly the scripted chunks, nothing of its own"""
+
+    def makeConnection(self, transport):
+        self.transport = transport
+        if self.role == "client":
+            self.blast()
+
+    def dataReceived(self, d):
+        self.received.append(d)
+        self.buf += d
+        if self.role == "server" and not self.started and b"\r\n\r\n" in self.buf:
+            self.blast()
+
+
+class RawBytesServer(RawServer):
+    def buildProtocol(self, addr):
+        p = RawBytesProto("server", self.chunks)
+        self.protos.append(p)
+        return p
+
+
+def raw_bytes_trial(role, a_pos, leaf, x, extras, names, cuts, redirect_c=False):
+    """like raw_trial, from the FIRST byte of the connection: `names` = block names (byte_blocks) forming the stream the raw peer
+    sends (for a listener: instead of the GET; for a dialling Tub: instead of the 101 answer), `cuts` = byte offsets at which the
+    stream is cut into chunks.  Observed after every chunk: receive phase, theirTubRef, keys given to brokerAttached, class of
+    the exception dataReceived caught last."""
+    reset()
+    net = Net()
+    arr = arrangement(a_pos)
+    ids = {k: v[0] for k, v in arr.items()}
+    negs = []
+
+    class RecNeg(neg.Negotiation):
+        def __init__(self, *a, **kw):
+            neg.Negotiation.__init__(self, *a, **kw)
+            negs.append(self)
+    A = make_tub(net, "a", arr["A"][1], RecNeg)
+    if redirect_c:
+        A.getListeners()[0]._redirects[ids["C"]] = "tcp:elsewhere:1"
+    certs = {}
+    for k in "BC":
+        certs[k] = Tub(certData=arr[k][1]).myCertificate
+    certs["A"] = A.myCertificate
+    attached = []
+    orig = A.brokerAttached
+
+    def brokerAttached(tubref, broker, isClient):
+        tr = broker.transport
+        attached.append((tubref.getTubID(), bool(isClient), independent_tubid(tr.peer_cert) if isinstance(tr, E.End) else "loopback"))
+        return orig(tubref, broker, isClient)
+    A.brokerAttached = brokerAttached
+    lib = byte_blocks(ids, leaf, x)
+    stream = b"".join(lib[n] for n in names)
+    offs = sorted(set(c for c in cuts if 0 < c < len(stream)))
+    chunks = [stream[a:b_] for a, b_ in zip([0] + offs, offs + [len(stream)])]
+    res = []
+    try:
+        A.registerReference(T(), name="svc")
+        if role == "Client":
+            raw = RawBytesServer(certs[leaf], [certs[e] for e in extras], chunks)
+            net.tubs["raw"] = raw
+            A.getReference("pb://%s@fake:raw:1/svc" % ids[x]).addBoth(res.append)
+            E.turn()
+            victim_side = 0
+        else:
+            link = E.Link(net, "L%d" % len(net.links))
+            cend, send_ = link.ends
+            ps = A.getListeners()[0].buildProtocol(E.Addr())
+            pc = RawBytesProto("client", chunks)
+            cend.protocol, send_.protocol = pc, ps
+            send_.peer_cert, send_.peer_extra = certs[leaf], [certs[e] for e in extras]
+            cend.peer_cert = A.myCertificate
+            link.client_tub, link.server_tub = None, A
+            ps.makeConnection(send_)
+            pc.makeConnection(cend)
+            E.turn()
+            victim_side = 1
+        obs = []
+        script_left = list(chunks)
+
+        def delivered(dst, d):
+            if dst.side == victim_side and script_left and d == script_left[0]:
+                script_left.pop(0)
+                n = negs[0]
+                their = getattr(n, "theirTubRef", None)
+                fr = n.failureReason
+                obs.append((phase_name(n), their.getTubID() if their is not None else None, [k for (k, ic, cid) in attached],
+                            fr.type.__name__ if fr is not None else None))
+        pump_keep_sending(net, delivered)
+        problems = []
+        leaf_id, x_id = ids[leaf], ids[x]
+        for (k, ic, cid) in attached:
+            if cid is None or k is None or cid != k:
+                problems.append(("attached-unproven", "Tub A registered a connection under %s; the peer authenticated with the certificate of %s" % (k, cid)))
+            if role == "Client" and k != x_id:
+                problems.append(("client-attached-other-than-dialled", "Tub A dialled %s and registered %s" % (x_id, k)))
+        if len(attached) > 1:
+            problems.append(("attached-twice", "one transport was registered %d times: %r" % (len(attached), [a[0] for a in attached])))
+        for tubref, b in A.brokers.items():
+            if isinstance(b.transport, E.End) and independent_tubid(b.transport.peer_cert) != tubref.getTubID():
+                problems.append(("table-entry-unproven", "Tub A keeps %s for a transport authenticated as %s"
+                                 % (tubref.getTubID(), independent_tubid(b.transport.peer_cert))))
+        for r_ in res:
+            if hasattr(r_, "callRemote") and leaf_id != x_id:
+                problems.append(("getReference-succeeded-without-proof", "getReference(FURL naming %s) returned a reference over a "
+                                 "connection authenticated as %s" % (x_id, leaf_id)))
+        return dict(role=role, a_pos=a_pos, leaf=leaf, x=x, extras=extras, names=names, cuts=offs, lens=[len(c) for c in chunks],
+                    obs=obs, n_chunks=len(chunks), attached=attached, problems=problems, redirect_c=redirect_c,
+                    stream_len=len(stream))
     finally:
         A.stopService()
         E.turn()
